@@ -53,6 +53,10 @@ AllScripts(n) == UNION {[1..m -> ScriptSteps] : m \in 0..n}
 AlphaScripts ==
   {Scr(s, m, o) : s \in AllScripts(4), m \in BOOLEAN, o \in BOOLEAN} \cup {None("GenOk")}
 
+\* the same up to length 3: small enough for every PAIR of scripted requests (C05 thorough)
+AlphaScripts3 ==
+  {Scr(s, m, o) : s \in AllScripts(3), m \in BOOLEAN, o \in BOOLEAN} \cup {None("GenOk")}
+
 AlphaMalformed ==
   {None(k) : k \in MalformedKinds} \cup
   {None(k) : k \in {"GenOk", "GetInfo", "UnknownIface", "NoDot"}} \cup {More("GenStream2"), Oneway("GenOk")}
@@ -62,6 +66,7 @@ Alphabet ==
     [] AlphabetName = "rep"       -> AlphaRep
     [] AlphabetName = "oneway"    -> AlphaOneway
     [] AlphabetName = "scripts"   -> AlphaScripts
+    [] AlphabetName = "scripts3"  -> AlphaScripts3
     [] AlphabetName = "malformed" -> AlphaMalformed
 
 Init == reqs \in UNION {[1..n -> Alphabet] : n \in 0..MaxLen}
